@@ -18,19 +18,47 @@ StatExpansion(mode)   example.ExpansionStrategy with parameters.
    mode 3 "extra"   like keep, but the children track one more statistic (a letter the
                     parent does not track): a child parameter not mapped from any parent
                     parameter (get_terms sums it out).
+   NAME-PERMUTING modes (a child name equals the name of a DIFFERENT parent parameter, so
+   that the substitution child name := parent variable inside get_equation must be
+   simultaneous; n_0 .. n_{k-1} are the names of the statistics the child keeps):
+   mode 4 "cycle"   the child's i-th statistic is called n_{i+1 mod k}.
+   mode 5 "swap"    the first two names are exchanged, the others kept.
+   mode 6 "down"    the i-th statistic is called n_{i-1}, the first one gets a new name
+                    (n_0 + "_s"): chain n_1 -> n_0, n_2 -> n_1 (partial overlap).
+   mode 7 "up"      the i-th statistic is called n_{i+1}, the last one gets a new name.
+   mode 8 "merge+cycle"  one name per letter as in mode 1, the surviving names cycled: several
+                    parent parameters onto one child parameter that carries the name of another
+                    parent parameter.
+   mode 9 "reorder" names kept, the child LISTS its statistics in reverse order (the
+                    positions of the function's arguments change, the names do not).
+   mode 10          cycle + reverse order.
+   mode 11 "reindex" if every name is <base>_<d> with d >= 1 all indices are lowered by one
+                    (k_1 -> k_0, k_2 -> k_1), otherwise keep: a finite universe for searches.
+   A LIST of modes gives one mode per child (cycled): one factor re-indexes, the other keeps.
+   A DICT {"maps": [[name or "" per PARENT statistic] ...], "rev": [0/1 ...]} (both cycled
+   over the children) names every child statistic explicitly ("" = keep) -- arbitrary
+   injections into parent names + new names, and merges; a map that gives one name to
+   statistics of different letters is not a rule: the strategy does not apply.
 StatRemoveFront(mode) example.RemoveFrontOfPrefix with parameters (letter counts add up
-                    over the concatenation).  mode 0 keep, mode 1 merge, mode 2 rename.
+                    over the concatenation).  Same modes (mode 3 = keep).
+StatRemoveFrontLW(mode, rest_pos)  words_ext.RemoveFrontLetterwise with parameters: products
+                    with three and more factors, the non-atom factor last / first / in the middle.
+StatRelabel(mode)   unary union onto the same words with re-named statistics (any mode above).
 StatAtom            verification strategy for one-word classes with parameters
                     (the library's AtomStrategy refuses classes with parameters).
 
 True terms: brute force through the class's own objects_of_size / get_parameters.
 """
+import re
 from collections import Counter
 from typing import Optional, Tuple
 
 from comb_spec_searcher import CartesianProductStrategy, DisjointUnionStrategy, StrategyPack
+from comb_spec_searcher.exception import StrategyDoesNotApply
+from comb_spec_searcher.strategies.strategy import StrategyFactory
 from comb_spec_searcher.strategies.strategy import VerificationStrategy
 from example import AvoidingWithPrefix, ExpansionStrategy, RemoveFrontOfPrefix
+from harness.universes.words_ext import RemoveFrontLetterwise
 
 
 class StatWord(AvoidingWithPrefix):
@@ -93,23 +121,67 @@ class StatWord(AvoidingWithPrefix):
         return AvoidingWithPrefix.__str__(self) + " tracking %s" % (self.stats,)
 
 
-def _child_stats(stats, mode, keep_letters=None, extra_letter=None):
-    """-> (child stats, extra_parameters dict parent name -> child name)"""
-    out, ep, first = [], {}, {}
-    for n, l in stats:
-        if keep_letters is not None and l not in keep_letters:
-            continue
-        if mode == 1:
+_INDEXED = re.compile(r"^(.*)_(\d+)$")
+
+
+def _mode_of_child(mode, idx):
+    if isinstance(mode, (list, tuple)):
+        return mode[idx % len(mode)] if mode else 0
+    return mode
+
+
+def _child_names(kept, mode, idx):
+    """kept = [(position in the parent's statistics, name, letter)] -> (child name per entry, reverse order?)"""
+    names = [n for _, n, _ in kept]
+    k = len(names)
+    if isinstance(mode, dict):
+        maps = mode.get("maps") or [[]]
+        m = maps[idx % len(maps)]
+        revs = mode.get("rev") or [0]
+        return [(m[j] if j < len(m) and m[j] else n) for j, n, _ in kept], bool(revs[idx % len(revs)])
+    if mode in (1, 8):
+        first, surv = {}, []
+        for _, n, l in kept:
             if l not in first:
                 first[l] = n
-                out.append((n, l))
-            ep[n] = first[l]
-        elif mode == 2:
-            out.append((n + "_r", l))
-            ep[n] = n + "_r"
-        else:
-            out.append((n, l))
-            ep[n] = n
+                surv.append(n)
+        ren = {n: (surv[(i + 1) % len(surv)] if mode == 8 else n) for i, n in enumerate(surv)}
+        return [ren[first[l]] for _, _, l in kept], False
+    if mode == 2:
+        return [n + "_r" for n in names], False
+    if mode in (4, 10):
+        return [names[(i + 1) % k] for i in range(k)], mode == 10
+    if mode == 5:
+        return ([names[1], names[0]] + names[2:] if k >= 2 else names), False
+    if mode == 6:
+        return [names[i - 1] if i else names[0] + "_s" for i in range(k)], False
+    if mode == 7:
+        return [names[i + 1] if i + 1 < k else names[-1] + "_s" for i in range(k)], False
+    if mode == 9:
+        return names, True
+    if mode == 11:
+        ms = [_INDEXED.match(n) for n in names]
+        if k and all(m and int(m.group(2)) >= 1 for m in ms):
+            return ["%s_%d" % (m.group(1), int(m.group(2)) - 1) for m in ms], False
+        return names, False
+    return names, False
+
+
+def _child_stats(stats, mode, keep_letters=None, extra_letter=None, idx=0):
+    """-> (child stats, extra_parameters dict parent name -> child name), or None when the mode
+    does not describe a rule on these statistics"""
+    mode = _mode_of_child(mode, idx)
+    kept = [(j, n, l) for j, (n, l) in enumerate(stats) if keep_letters is None or l in keep_letters]
+    new, rev = _child_names(kept, mode, idx)
+    out, ep, letter = [], {}, {}
+    for (_, n, l), c in zip(kept, new):
+        if letter.setdefault(c, l) != l:
+            return None             # one child statistic cannot count two letters
+        if (c, l) not in out:
+            out.append((c, l))
+        ep[n] = c
+    if rev:
+        out.reverse()
     if mode == 3 and extra_letter is not None and (keep_letters is None or extra_letter in keep_letters):
         out.append(("e_" + extra_letter, extra_letter))
     return tuple(out), ep
@@ -136,11 +208,13 @@ class _StatMixin:
         if plain is None:
             return None
         kids, eps = [], []
-        for c in plain:
+        for i, c in enumerate(plain):
             keep = set(c.prefix) if c.just_prefix else None
-            st, ep = _child_stats(comb_class.stats, self.mode, keep, self._extra_letter(comb_class))
-            kids.append(_with_stats(c, st))
-            eps.append(ep)
+            r = _child_stats(comb_class.stats, self.mode, keep, self._extra_letter(comb_class), i)
+            if r is None:
+                return None
+            kids.append(_with_stats(c, r[0]))
+            eps.append(r[1])
         return tuple(kids), tuple(eps)
 
     def decomposition_function(self, comb_class):
@@ -160,13 +234,13 @@ class _StatMixin:
         return cls(d.get("mode", 0))
 
     def __repr__(self):
-        return "%s(%d)" % (type(self).__name__, self.mode)
+        return "%s(%r)" % (type(self).__name__, self.mode)
 
     def __str__(self):
-        return "%s, statistics mode %d" % (self.BASE.formal_step(self), self.mode)
+        return "%s, statistics mode %s" % (self.BASE.formal_step(self), self.mode)
 
     def formal_step(self):
-        return "%s (statistics mode %d)" % (self.BASE.formal_step(self), self.mode)
+        return "%s (statistics mode %s)" % (self.BASE.formal_step(self), self.mode)
 
 
 class StatExpansion(_StatMixin, ExpansionStrategy):
@@ -180,6 +254,29 @@ class StatRemoveFront(_StatMixin, RemoveFrontOfPrefix):
         return None
 
 
+class StatRemoveFrontLW(_StatMixin, RemoveFrontLetterwise):
+    """products with three and more factors: one atom per removed letter and the rest"""
+    BASE = RemoveFrontLetterwise
+
+    def __init__(self, mode=0, rest_pos=0):
+        super().__init__(mode, rest_pos=rest_pos)
+
+    def _extra_letter(self, comb_class):
+        return None
+
+    def to_jsonable(self):
+        d = super().to_jsonable()
+        d["rest_pos"] = self.rest_pos
+        return d
+
+    @classmethod
+    def from_dict(cls, d):
+        return cls(d.get("mode", 0), d.get("rest_pos", 0))
+
+    def __repr__(self):
+        return "StatRemoveFrontLW(%r, %d)" % (self.mode, self.rest_pos)
+
+
 class StatRelabel(DisjointUnionStrategy):
     """Unary union (an equivalence): the same words, statistics re-named (mode 2) or
     merged per letter (mode 1).  Used for equivalence rules, their reverses and
@@ -190,16 +287,16 @@ class StatRelabel(DisjointUnionStrategy):
         self.mode = mode
 
     def decomposition_function(self, comb_class):
-        st, _ = _child_stats(comb_class.stats, self.mode)
-        if st == comb_class.stats:
+        r = _child_stats(comb_class.stats, self.mode)
+        if r is None or r[0] == comb_class.stats:
             return None
-        return (_with_stats(comb_class, st),)
+        return (_with_stats(comb_class, r[0]),)
 
     def extra_parameters(self, comb_class, children=None):
         return (_child_stats(comb_class.stats, self.mode)[1],)
 
     def formal_step(self):
-        return "relabel statistics (mode %d)" % self.mode
+        return "relabel statistics (mode %s)" % (self.mode,)
 
     def forward_map(self, comb_class, obj, children=None):
         return (obj,)
@@ -214,7 +311,7 @@ class StatRelabel(DisjointUnionStrategy):
         return cls(d.get("mode", 2))
 
     def __repr__(self):
-        return "StatRelabel(%d)" % self.mode
+        return "StatRelabel(%r)" % (self.mode,)
 
     def __str__(self):
         return self.formal_step()
@@ -259,18 +356,90 @@ class StatAtom(VerificationStrategy):
         return self.formal_step()
 
 
-def stat_pack():
-    return StrategyPack(
-        initial_strats=[StatRemoveFront(0)],
-        inferral_strats=[],
-        expansion_strats=[[StatExpansion(0)]],
-        ver_strats=[StatAtom()],
-        name="stats",
-    )
+class StatFactory(StrategyFactory):
+    """words_ext.WordFactory(2) with statistics: yields the product strategy and, for a class with a
+    non-empty prefix, the READY expansion rule of the class whose prefix is one letter shorter (same
+    statistics) -- a rule with another parent, which a forest may have to use in reverse."""
+
+    def __init__(self, front_mode=0, expansion_mode=0):
+        self.front_mode, self.expansion_mode = front_mode, expansion_mode
+
+    def __call__(self, comb_class):
+        if self.front_mode is not None:
+            yield StatRemoveFront(self.front_mode)
+        if comb_class.prefix and not comb_class.just_prefix:
+            # name the shorter class's statistics so that comb_class itself is one of the children
+            # (the inverse of the re-naming of expansion_mode, an integer mode that permutes names)
+            stats = comb_class.stats
+            for _ in range(6):
+                nxt = _child_stats(stats, self.expansion_mode)[0]
+                if nxt == comb_class.stats:
+                    break
+                stats = nxt
+            else:
+                stats = comb_class.stats
+            shorter = StatWord(comb_class.prefix[:-1], comb_class.patterns, comb_class.alphabet, False, stats)
+            try:
+                yield StatExpansion(self.expansion_mode)(shorter)
+            except StrategyDoesNotApply:
+                pass
+
+    def to_jsonable(self):
+        d = super().to_jsonable()
+        d["front_mode"], d["expansion_mode"] = self.front_mode, self.expansion_mode
+        return d
+
+    @classmethod
+    def from_dict(cls, d):
+        return cls(d.get("front_mode", 0), d.get("expansion_mode", 0))
+
+    def __repr__(self):
+        return "StatFactory(%r, %r)" % (self.front_mode, self.expansion_mode)
+
+    def __str__(self):
+        return "stat factory %s %s" % (self.front_mode, self.expansion_mode)
 
 
-# start classes for whole searches with statistics (mode 0 strategies only: the
-# universe of classes stays finite)
+def stat_pack(name="keep"):
+    return STAT_PACKS[name]()
+
+
+def _pack(name, initial, expansion):
+    return StrategyPack(initial_strats=initial, inferral_strats=[], expansion_strats=[expansion],
+                        ver_strats=[StatAtom()], name="stats-" + name)
+
+
+# packs for whole searches with statistics.  Only modes under which the set of names stays
+# finite (0 keep, 4 cycle, 5 swap, 9/10 reorder, 11 reindex): the universe of classes stays finite.
+STAT_PACKS = {
+    "keep": lambda: _pack("keep", [StatRemoveFront(0)], [StatExpansion(0)]),
+    # every rule permutes the names
+    "cycle": lambda: _pack("cycle", [StatRemoveFront(4)], [StatExpansion(4)]),
+    # only the product permutes / only some children of the union permute
+    "swap_front": lambda: _pack("swap_front", [StatRemoveFront([0, 5])], [StatExpansion(0)]),
+    "swap_expansion": lambda: _pack("swap_expansion", [StatRemoveFront(0)], [StatExpansion([0, 5, 4])]),
+    # the same words under exchanged names as an equivalence: equivalence paths whose composed map permutes
+    "symmetry": lambda: _pack("symmetry", [StatRemoveFront(0), StatRelabel(5)], [StatExpansion(0)]),
+    "symmetry_cycle": lambda: _pack("symmetry_cycle", [StatRemoveFront(5), StatRelabel(4)], [StatExpansion(0)]),
+    # positions change, names do not / both
+    "reorder": lambda: _pack("reorder", [StatRemoveFront(9)], [StatExpansion(10)]),
+    # k_1, k_2 -> k_0, k_1 in the factors of a product
+    "reindex": lambda: _pack("reindex", [StatRemoveFront([11, 0])], [StatExpansion(0)]),
+    "reindex_all": lambda: _pack("reindex_all", [StatRemoveFront(0)], [StatExpansion([11, 0, 11])]),
+    # rules with a foreign parent (used in reverse by RuleDBForest(reverse=True)): the fallback equation
+    "factory_swap": lambda: StrategyPack([], [], [[StatFactory(None, 5)], [StatExpansion(5), StatRemoveFront([5, 0])]],
+                                         [StatAtom()], name="stats-factory_swap"),
+    "factory_cycle": lambda: StrategyPack([], [], [[StatFactory(None, 4)], [StatExpansion(4), StatRemoveFront(4)]],
+                                          [StatAtom()], name="stats-factory_cycle"),
+    "factory_keep": lambda: StrategyPack([], [], [[StatFactory(None, 0)], [StatExpansion(0), StatRemoveFront(0)]],
+                                         [StatAtom()], name="stats-factory_keep"),
+    # products with >= 3 factors
+    "letterwise_cycle": lambda: _pack("letterwise_cycle", [StatRemoveFrontLW(4, 0)], [StatExpansion(0)]),
+    "letterwise_mid_swap": lambda: _pack("letterwise_mid_swap", [StatRemoveFrontLW([5, 0], 2)], [StatExpansion(5)]),
+}
+
+
+# start classes for whole searches with statistics
 STAT_STARTS = [
     ("", ["ab"], "ab", [("k", "a")]),
     ("", ["aa", "bb"], "ab", [("k", "a"), ("m", "b")]),
@@ -280,6 +449,16 @@ STAT_STARTS = [
     ("", ["aa"], "abc", [("k", "a"), ("m", "c")]),
     ("", [], "ab", [("k", "a")]),
     ("", ["abb", "ba"], "ab", [("u", "b"), ("v", "a")]),
+    # two and three statistics of different letters, names in both alphabetical orders, indexed names
+    ("", ["ab"], "ab", [("p", "a"), ("q", "b")]),
+    ("", ["bb"], "ab", [("q", "a"), ("p", "b")]),
+    ("", ["aba"], "ab", [("k_1", "a"), ("k_2", "b")]),
+    ("", ["aa", "bb"], "ab", [("k_3", "a"), ("k_2", "b")]),
+    ("", ["abc", "ca"], "abc", [("k_1", "a"), ("k_2", "b"), ("k_3", "c")]),
+    ("bbba", ["aa"], "ab", [("p", "a"), ("q", "b")]),
+    ("abab", ["bb"], "ab", [("k_2", "a"), ("k_1", "b")]),
+    ("", ["abb", "ba"], "ab", [("b", "a"), ("a", "b")]),
+    ("bab", ["aab"], "ab", [("k_1", "a"), ("k_2", "a"), ("k_3", "b")]),
 ]
 
 
